@@ -8,7 +8,7 @@ from spec.geometry import between, disk_open, disk_closed, ellipse_open, ellipse
 from spec.boxes import is_bbox
 from vprim import cos, sin, PI, implies, arr_at, shape_of
 
-VIS = {'plain': {'vis': 'plain'}, 'mpl': {'vis': 'mpl'}, 'ds9': {'vis': 'ds9'}}
+VIS = {'plain': {'vis': 'plain'}, 'mpl': {'vis': 'mpl'}, 'ds9': {'vis': 'ds9'}, 'filled': {'vis': 'filled'}}
 VU = {v + '-' + u: {'vis': v, 'unit': u} for v in ('plain', 'mpl', 'ds9') for u in UNITS}
 
 
@@ -16,7 +16,8 @@ def with_visual(B, r, vis):
     """replace the region's visual by an mpl-style or DS9-derived dictionary"""
     if vis == 'plain':
         return r
-    items = {'color': 'red', 'linewidth': 2} if vis == 'mpl' else {'color': 'green', 'linewidth': 2, 'default_style': 'ds9', 'fontsize': 12}
+    items = {'mpl': {'color': 'red', 'linewidth': 2}, 'filled': {'color': 'red', 'fill': True},
+             'ds9': {'color': 'green', 'linewidth': 2, 'default_style': 'ds9', 'fontsize': 12}}[vis]
     r.__dict__['visual'] = B.meta(VISUAL, 'vis', items)
     return r
 
@@ -36,6 +37,10 @@ def kwargs_ok(self, artist, kwargs, result):
     ok = True
     for k in kwargs:
         ok = ok and k in result.kwargs and result.kwargs[k] == kwargs[k]
+        # A-MPL: in a patch the keyword `color` sets edge and face colour and takes precedence over `edgecolor` / `facecolor`: a stored
+        # colour handed over under that name would silently win over the caller's edge / face colour
+        if artist == 'Patch' and k in ('edgecolor', 'facecolor'):
+            ok = ok and ('color' not in result.kwargs or 'color' in kwargs)
     for k in base:
         if k not in kwargs:
             ok = ok and k in result.kwargs and result.kwargs[k] == base[k]
